@@ -81,6 +81,7 @@ type Unit struct {
 	allocTypes map[int]types.Type
 	randomUUID map[Val]bool
 	strLenKnown map[string]bool
+	allocMarks  []int // number of heap allocations made when each enclosing loop was cut
 	strLitKnown map[string]bool
 	allocPC    map[int]Term
 	objinvDone map[string]bool
@@ -1499,6 +1500,8 @@ func (u *Unit) execLoop(fr *Frame, li *loopInfo, ins []edgeState, deliver func(f
 	headSnapshot := st.clone()
 	u.loopMarks = append(u.loopMarks, u.cells)
 	defer func() { u.loopMarks = u.loopMarks[:len(u.loopMarks)-1] }()
+	u.allocMarks = append(u.allocMarks, u.allocs)
+	defer func() { u.allocMarks = u.allocMarks[:len(u.allocMarks)-1] }()
 	u.execBlockAsHead(fr, li, st, out, exits, func(backs []edgeState) {
 		for _, bk := range backs {
 			// evaluate the phi values along the back edge
